@@ -588,12 +588,12 @@ func (f *MemFile) Truncate(size int64) error {
 		return fs.ErrInvalid
 	}
 
-	if size < 0 {
-		return &fs.PathError{Op: op, Path: f.name, Err: f.vfs.err.InvalidArgument}
-	}
-
 	if f.nd == nil {
 		return &fs.PathError{Op: op, Path: f.name, Err: fs.ErrClosed}
+	}
+
+	if size < 0 {
+		return &fs.PathError{Op: op, Path: f.name, Err: f.vfs.err.InvalidArgument}
 	}
 
 	nd, ok := f.nd.(*fileNode)
